@@ -1,6 +1,7 @@
 // C06 — reim/cplx FFT and iFFT equal the mathematical transform, in the documented order.
 // Oracle: long-double O(m log m) evaluation at omega^(1+4 bitrev(j)), omega = exp(i pi/(2m)), validated on
 // every case against direct Horner evaluation in __float128 at sampled outputs.
+#include <pthread.h>
 #include "lib.h"
 #include "oracle.h"
 
@@ -13,6 +14,7 @@ static const char* xfam_name[] = {"random", "impulse", "constant", "resonant", "
 // table cache: [layout][inverse][native]
 static void* TAB[2][2][2][17];
 static size_t TABSZ[2][2][2][17];
+static int tables_built_in_this_process;
 static void* get_table(int layout, int inverse, int native, uint64_t m) {
   unsigned k = ilog2(m);
   if (!TAB[layout][inverse][native][k]) {
@@ -28,6 +30,7 @@ static void* get_table(int layout, int inverse, int native, uint64_t m) {
       sz = sizeof(CPLX_FFT_PRECOMP) + 63 + ((2 * m * 16 + 63) & ~(size_t)63);
     }
     set_dispatch(saved);
+    tables_built_in_this_process = 1;
     TAB[layout][inverse][native][k] = t;
     TABSZ[layout][inverse][native][k] = sz;
   }
@@ -343,8 +346,81 @@ done_skip:
   case_end(0);
 }
 
+// Tables built by several threads at the same moment — in a process that has not built any table yet when this is the
+// first case it runs (each partition of the check is a fresh process and these cases come first) — must transform exactly
+// like tables built one at a time: a lazily initialised helper shared by the constructors must be complete before use.
+typedef struct {
+  uint64_t m;
+  int layout, inverse, native;
+  void* t;
+  pthread_barrier_t* bar;
+} cctor_t;
+static void* cctor_worker(void* arg) {
+  cctor_t* c = arg;
+  pthread_barrier_wait(c->bar);
+  // (the dispatch configuration was set by the main thread before the threads were started)
+  if (c->layout == L_REIM) c->t = c->inverse ? (void*)new_reim_ifft_precomp((uint32_t)c->m, 0) : (void*)new_reim_fft_precomp((uint32_t)c->m, 0);
+  else c->t = c->inverse ? (void*)new_cplx_ifft_precomp((uint32_t)c->m, 0) : (void*)new_cplx_fft_precomp((uint32_t)c->m, 0);
+  return 0;
+}
+static void run_table(int layout, int inverse, void* t, double* d) {
+  if (layout == L_REIM) { if (inverse) reim_ifft(t, d); else reim_fft(t, d); }
+  else { if (inverse) cplx_ifft(t, d); else cplx_fft(t, d); }
+}
+static void concurrent_construction_case(unsigned slot) {
+  if (!case_begin("fft/ifft tables|built by 8 threads at once", "slot=%u", slot)) return;
+  rng_t* r = crng();
+  enum { T = 8 };
+  const int cold = !tables_built_in_this_process;
+  tables_built_in_this_process = 1;
+  cctor_t c[T];
+  pthread_t tid[T];
+  pthread_barrier_t bar;
+  pthread_barrier_init(&bar, 0, T);
+  const int native = (int)(slot & 1) ^ 1;
+  int saved = g_dispatch_native;
+  set_dispatch(native);
+  for (int t = 0; t < T; t++) {
+    c[t].m = 1ull << (1 + rng_u64(r) % 13);
+    c[t].layout = (t + (int)slot) & 1;   // cplx and reim tables built side by side
+    c[t].inverse = (t >> 1) & 1;
+    c[t].native = native;
+    c[t].t = 0;
+    c[t].bar = &bar;
+    pthread_create(&tid[t], 0, cctor_worker, &c[t]);
+  }
+  for (int t = 0; t < T; t++) pthread_join(tid[t], 0);
+  pthread_barrier_destroy(&bar);
+  uint64_t bytes = 0;
+  for (int t = 0; t < T; t++) {
+    const uint64_t m = c[t].m;
+    void* seq;
+    if (c[t].layout == L_REIM) seq = c[t].inverse ? (void*)new_reim_ifft_precomp((uint32_t)m, 0) : (void*)new_reim_fft_precomp((uint32_t)m, 0);
+    else seq = c[t].inverse ? (void*)new_cplx_ifft_precomp((uint32_t)m, 0) : (void*)new_cplx_fft_precomp((uint32_t)m, 0);
+    double* x = malloc(2 * m * 8);
+    double* y = malloc(2 * m * 8);
+    for (uint64_t i = 0; i < 2 * m; i++) x[i] = y[i] = rng_unit(r) * 2 - 1;
+    run_table(c[t].layout, c[t].inverse, c[t].t, x);
+    run_table(c[t].layout, c[t].inverse, seq, y);
+    if (memcmp(x, y, 2 * m * 8))
+      viol("differential", "%s %s table (m=%" PRIu64 ", %s) built while %d threads were building tables%s transforms differently from a table built alone", c[t].layout == L_REIM ? "reim" : "cplx", c[t].inverse ? "ifft" : "fft", m, native ? "native" : "generic", T, cold ? " (first tables of the process)" : "");
+    bytes += 2 * m * 8;
+    free(x);
+    free(y);
+    free(seq);
+    free(c[t].t);
+  }
+  set_dispatch(saved);
+  cnt("tables_built_concurrently", T);
+  if (cold) cnt("cold_process_constructions", 1);
+  sample("8 tables built together%s; %" PRIu64 " output bytes identical to sequentially built tables", cold ? " as the first tables of the process" : "", bytes);
+  case_end(1);
+}
+
 void run_C06(void) {
   const int th = G.thorough;
+  // must stay first: see concurrent_construction_case
+  for (unsigned slot = 0; slot < (unsigned)(th ? 40 : 8) * (unsigned)G.nparts; slot++) concurrent_construction_case(slot);
   for (unsigned k = 0; k <= 16; k++) {
     const uint64_t m = 1ull << k;
     const unsigned reps = (G.valgrind ? 1 : (th ? (m <= 2048 ? 60 : (m <= 16384 ? 12 : 5)) : (m <= 2048 ? 4 : 2)));
